@@ -5,7 +5,7 @@ From CgnsV Require Import ListX Ftoc FtocAbi.
 Import ListNotations.
 Local Open Scope Z_scope.
 
-Lemma args_abi_length : forall b fa ca, args_abi b fa ca = true -> length fa = length ca.
+Lemma args_abi_length : forall b fa ca, args_abi b fa ca = true -> List.length fa = List.length ca.
 Proof.
   induction fa as [|[f v] fr IH]; destruct ca as [|c cr]; simpl; intros H; try discriminate; auto.
   apply andb_true_iff in H. destruct H as [_ H]. f_equal. now apply IH.
@@ -62,7 +62,7 @@ Qed.
 Lemma interfaces_match : forall t i, abi_table_ok t = true -> In (AIface i) t -> arow_known (AIface i) = false ->
   a_variadic i = false ->
   let cn := non_hidden (a_cptys i) in
-  length (a_fargs i) = length cn /\
+  List.length (a_fargs i) = List.length cn /\
   (a_bindc i = false -> n_fchar (a_fargs i) = n_hidden (a_cptys i)) /\
   (a_bindc i = true -> n_hidden (a_cptys i) = 0) /\
   (forall k f v c, nth_error (a_fargs i) k = Some (f, v) -> nth_error cn k = Some c ->
@@ -80,15 +80,11 @@ Proof.
   split; [intros Hb; rewrite Hb in Hh; now apply Z.eqb_eq in Hh|].
   split; [intros Hb; rewrite Hb in Hh; now apply Z.eqb_eq in Hh|].
   intros k f v c Hf Hc. pose proof (args_abi_nth _ _ _ Ha k f v c Hf Hc) as Hcomp.
-  split; [exact Hcomp|]. repeat split.
-  - intros ->. now apply compat_fstr in Hcomp as (? & ? & ?).
-  - intros ->. now apply compat_fstr in Hcomp as (? & ? & ?).
-  - intros ->. now apply compat_fstr in Hcomp as (? & ? & ?).
-  - intros ->. now apply compat_char in Hcomp as (? & ?).
-  - intros ->. now apply compat_char in Hcomp as (? & ?).
-  - intros ->. now apply compat_sizep in Hcomp.
-  - intros ->. now apply compat_fintp in Hcomp as (? & ?).
-  - intros ->. now apply compat_fintp in Hcomp as (? & ?).
+  split; [exact Hcomp|].
+  split; [intros ->; now apply compat_fstr in Hcomp|].
+  split; [intros ->; now apply compat_char in Hcomp|].
+  split; [intros ->; now apply compat_sizep in Hcomp|].
+  intros ->; now apply compat_fintp in Hcomp.
 Qed.
 
 (* a wrapper without an interface body is reachable from gfortran only if its symbol is name_ *)
